@@ -267,8 +267,8 @@ func boundaryCase(l *mc.Local, j bjob) {
 	}
 	honoured := ob.level == j.lv && (j.mask < 0 || ob.mask == j.mask) && (wantV < 0 || ob.version == wantV)
 	wantModes := j.m.refMode().String() + ";"
-	if j.m == pByteLatin1 {
-		wantModes = "eci3+" + wantModes
+	if j.m == pByteLatin1 && (strings.HasPrefix(ob.modes, "eci1+") || strings.HasPrefix(ob.modes, "eci3+")) {
+		wantModes = ob.modes[:5] + wantModes // ECI 000001 and 000003 both designate ISO-8859-1
 	}
 	if ob.modes != wantModes || ob.count != j.n {
 		// not a C01 matter (the text came back exactly) but the case did not exercise what it names
@@ -416,8 +416,8 @@ func runSmall() {
 	var jobs []sjob
 	var name string
 	if chk.Quick() {
-		as := assignments([]int{-1, 2, 5}, -1)
-		name = fmt.Sprintf("(b) small texts: ALL strings of length 0..2 over the 16-symbol alphabet x FULL product level{L,M,Q,H} x mask{none,2,5} x version{none,1,2,10,27} x charset{none,UTF-8,ISO-8859-1,Shift_JIS} (%d assignments per string)", len(as))
+		as := assignments([]int{-1, 2, 5}, 2)
+		name = fmt.Sprintf("(b) small texts: ALL strings of length 0..2 over the 16-symbol alphabet x all assignments of level{L,M,Q,H} x mask{none,2,5} x version{none,1,2,10,27} x charset{none,UTF-8,ISO-8859-1,Shift_JIS} that differ from the default (M, none, none, none) in at most 2 axes (%d assignments per string)", len(as))
 		for k := 0; k <= 2; k++ {
 			for s := 0; s < pow(16, k); s++ {
 				jobs = append(jobs, sjob{k, s, s + 1, as})
